@@ -153,6 +153,7 @@ type Gen struct {
 	drainStep   int
 	chased      bool
 	runout      bool
+	chaseRoll   bool
 	everSid     map[int]string // actor -> sid DID it has been listed in at some point
 	chase12     int // remaining jumps to the next examination of a stalled long-timeout order
 }
@@ -163,6 +164,7 @@ func NewGen(e *Env, prof *Profile) *Gen {
 	g.quiesce = g.horizon
 	g.regenAt = g.r.Range(g.horizon/5, g.horizon*9/10)
 	g.drain = g.r.Chance(0.2) || prof.Drain
+	g.chaseRoll = NewRng(e.W.Cfg.Seed).Sub("chaseroll").Chance(0.15)
 	g.runout = prof.Long && NewRng(e.W.Cfg.Seed).Sub("runout").Chance(0.3)
 	if NewRng(e.W.Cfg.Seed).Sub("chase12").Chance(0.25) {
 		g.chase12 = 3
@@ -351,6 +353,30 @@ func (g *Gen) Next() *Step {
 					}
 				}
 			}
+		}
+	}
+	// and for roll-overs: a renewed shard is followed to the end of its current term, and the run goes
+	// on for a while after the roll-over to its renewal order
+	if g.chaseRoll && !g.p.Long {
+		s := e.Cur
+		best := uint64(0)
+		for _, sid := range shardIDs(s.Order) {
+			sh := s.Order.Shards[sid]
+			if sh.Status != ordertypes.ShardCompleted || len(sh.RenewInfos) == 0 {
+				continue
+			}
+			if end := sh.CreatedAt + sh.Duration; end > uint64(h)+50 && end < uint64(h)+9000 && (best == 0 || end < best) {
+				best = end
+			}
+		}
+		if best > 0 && h > g.horizon/2 {
+			g.chaseRoll = false
+			e.probe("chased_roll_over_of_renewed_shard")
+			if g.horizon < int(best)+80 {
+				g.horizon = int(best) + 80
+			}
+			g.quiesce = g.horizon
+			return &Step{Idle: int(best) + 1 - h}
 		}
 	}
 	// same idea for C12: an order with stalled shards whose next examination lies far ahead (long
